@@ -36,7 +36,9 @@ Tier == IF "TIER" \in DOMAIN IOEnv THEN IOEnv.TIER ELSE "quick"
 Quick == Tier = "quick"
 \* the quick grid: the first 31 values plus the string "0" and the two strings that tell the ECMAScript white space
 \* set from the host's (a mutant that made "0" falsy, or trimmed with the host set, was seen only by random trees before)
-QuickExtra == {gi \in 1..NGrid : GridSeq[gi] \in {S("0"), VStr(<<65279, 49, 160>>), VStr(<<28, 49>>)}}
+\* round 3: a negative non-integer and a negative even integer (the int32 boundary): the quick grid had no negative
+\* number that is not an odd integer (GridLaw below names the classes)
+QuickExtra == {gi \in 1..NGrid : GridSeq[gi] \in {S("0"), VStr(<<65279, 49, 160>>), VStr(<<28, 49>>), N("-1.5"), N("-2147483648")}}
 GridIdx == IF Quick THEN (1..31) \cup QuickExtra ELSE 1..NGrid
 \* sub-grid for the assignment-target forms (the lowering, not the operator, is what varies there); it contains a
 \* negative number so that >>>= and >>= differ (a mutant mapping >>>= to the >> opcode went unnoticed without it)
@@ -92,8 +94,38 @@ UniClasses == {UniAll[ui_k].cls : ui_k \in 1..NUni}
 URank(k) == Cardinality({ui_j \in 1..k : UniAll[ui_j].cls = UniAll[k].cls})
 \* quick: the first two members of every class (so every class is there by construction); thorough: all
 UniIdx == {NGrid + ui_k : ui_k \in {ui_j \in 1..NUni : ~Quick \/ URank(ui_j) <= 2}}
-AllSeq == GridSeq \o [ui_k \in 1..NUni |-> VStr(UniAll[ui_k].u)]
-NAll == NGrid + NUni
+\* ---------------- the Number::exponentiate table: base class x exponent class (round 3) ----------
+\* Number::exponentiate is a table over the CLASS of the base (NaN, zero, infinity, magnitude one / below / above, each
+\* sign) and the class of the exponent (NaN, zero, infinity, odd integer, even integer, non-integer whose integer part
+\* is odd / even, each sign, also beyond 2^31, 2^32 and 2^53 where every double is an even integer).  The family is
+\* the product of the two, under `**` and `**=`; members of a class alternate in sign.
+PCls(role, cls, txts) == [pi_k \in 1..Len(txts) |-> [role |-> role, cls |-> cls, v |-> N(txts[pi_k])]]
+PowAll ==
+     PCls("base", "zero", <<"-0", "0">>)
+  \o PCls("base", "inf", <<"-Infinity", "Infinity">>)
+  \o PCls("base", "nan", <<"NaN">>)
+  \o PCls("base", "one", <<"-1", "1">>)
+  \o PCls("base", "lt1", <<"-0.5", "0.5", "0.9999999999999999", "-5e-324", "5e-324", "-0.3">>)
+  \o PCls("base", "gt1", <<"-2", "2", "-1.0000000000000002", "3", "-3", "1.5", "-1.5", "10", "-7",
+                            "1.7976931348623157e308", "-1.7976931348623157e308">>)
+  \o PCls("exp", "special", <<"NaN", "0", "-0", "Infinity", "-Infinity">>)
+  \o PCls("exp", "odd-int", <<"-1", "3", "-3", "1", "-7", "9007199254740991", "-9007199254740991", "-2147483647", "4294967295">>)
+  \o PCls("exp", "even-int", <<"-2", "2", "-4", "2147483648", "-4294967296", "9007199254740992", "-9007199254740992",
+                               "1e21", "-1e21", "1.7976931348623157e308">>)
+  \o PCls("exp", "frac-odd-trunc", <<"-1.5", "1.5", "-3.5", "-7.25", "-2147483647.5", "4294967295.5", "-1.0000000000000002",
+                                     "4503599627370497.5">>)
+  \o PCls("exp", "frac-even-trunc", <<"-2.5", "0.5", "-0.5", "2.5", "-2147483648.5", "5e-324", "-5e-324", "4503599627370496.5">>)
+NPow == Len(PowAll)
+PowClasses == {<<PowAll[pi_k].role, PowAll[pi_k].cls>> : pi_k \in 1..NPow}
+PRank(k) == Cardinality({pi_j \in 1..k : PowAll[pi_j].role = PowAll[k].role /\ PowAll[pi_j].cls = PowAll[k].cls})
+\* quick: the first two members of every class (one of each sign) and every special exponent; thorough: all
+PowActive == {pi_k \in 1..NPow : ~Quick \/ PRank(pi_k) <= 2 \/ PowAll[pi_k].cls = "special"}
+PowBaseIdx == {NGrid + NUni + pi_k : pi_k \in {pi_j \in PowActive : PowAll[pi_j].role = "base"}}
+PowExpIdx == {NGrid + NUni + pi_k : pi_k \in {pi_j \in PowActive : PowAll[pi_j].role = "exp"}}
+PowOps == <<"**">>
+PowTargets == IF Quick THEN <<"global", "dot">> ELSE <<"global", "local", "cell", "free", "dot", "computed", "elem", "elemvar">>
+AllSeq == GridSeq \o [ui_k \in 1..NUni |-> VStr(UniAll[ui_k].u)] \o [pi_k \in 1..NPow |-> PowAll[pi_k].v]
+NAll == NGrid + NUni + NPow
 \* partners of a look-alike string (both orders, every binary operator): a number (ToNumber path) and a string (+ < == between strings)
 UniPartnerIdx == IF Quick THEN {6, 21} ELSE {1, 3, 6, 12, 19, 21, 25, 28}
 UniCmpdPartner == 6
@@ -118,8 +150,87 @@ LitCombos(ia, ib) ==
          THEN [li_k \in 1..(na - 1) |-> [sa |-> li_k + 1, sb |-> 1, bin |-> LitAltOps, cmpd |-> IF tgt /\ ~Quick THEN LitAltCmpdOps ELSE <<>>]] ELSE <<>>)
      \o (IF ia \in LitAltPartners
          THEN [li_k \in 1..(nb - 1) |-> [sa |-> 1, sb |-> li_k + 1, bin |-> LitAltOps, cmpd |-> IF tgt /\ ~Quick THEN LitAltCmpdOps ELSE <<>>]] ELSE <<>>)
+\* ---------------- operands that change the assignment target (round 3) ---------------------------
+\* Until now the operands of every enumerated case were values: no operand had an effect.  The operators of the property
+\* that WRITE (++ -- = op=) can be operands of each other and of every other operator, and then it matters WHEN an
+\* operator reads its target / its operands: `t op= R`, `t op R`, `R op t`, `R op R`, `R ? t : b`, `t ? R : t` where R is a
+\* side effect on the same target t: the four update forms, `t = b`, `t += b`, a call of a function that stores b in t.
+\* Trees are printed with grid indices at the leaves (JsOps!EvalS is the reference); every target form.
+SeLit(gi) == [t |-> "lit", gi |-> gi]
+SeVar == [t |-> "var"]
+SeAIdx == IF Quick THEN {3, 6, 25} ELSE {1, 3, 6, 9, 14, 20, 25, 28, 31}       \* what the target holds at first
+SeBSeq == IF Quick THEN <<7, 20>> ELSE <<7, 20, 9, 28>>                       \* what a side effect stores / adds
+SeRet == 11                                                                   \* what the storing function returns
+SeUpds == << [t |-> "upd", op |-> "++", pre |-> FALSE], [t |-> "upd", op |-> "++", pre |-> TRUE],
+             [t |-> "upd", op |-> "--", pre |-> FALSE], [t |-> "upd", op |-> "--", pre |-> TRUE] >>
+SeWrites(ib) == << [t |-> "asg", x |-> SeLit(ib)], [t |-> "cmpd", op |-> "+", x |-> SeLit(ib)],
+                   [t |-> "call", w |-> SeLit(ib), x |-> SeLit(SeRet)] >>
+SeR == SeUpds \o [se_k \in 1..(3 * Len(SeBSeq)) |-> SeWrites(SeBSeq[((se_k - 1) \div 3) + 1])[((se_k - 1) % 3) + 1]]
+NSeR == Len(SeR)
+SeBinOpSeq == IF Quick THEN <<"+", "-", "<", "&&", ",">> ELSE <<"+", "-", "*", "/", "&", ">>>", "<", ">=", "==", "===", "&&", "||", ",">>
+SeBin(op, l, r) == [t |-> "bin", op |-> op, l |-> l, r |-> r]
+\* t op= R, every compound operator
+SeCm == [se_k \in 1..(Len(CmpdOpSeq) * NSeR) |-> [t |-> "cmpd", op |-> CmpdOpSeq[((se_k - 1) \div NSeR) + 1], x |-> SeR[((se_k - 1) % NSeR) + 1]]]
+\* t op R, R op t, R op R;  R ? t : b,  t ? R : t
+SeEx ==    [se_k \in 1..(Len(SeBinOpSeq) * NSeR) |-> SeBin(SeBinOpSeq[((se_k - 1) \div NSeR) + 1], SeVar, SeR[((se_k - 1) % NSeR) + 1])]
+        \o [se_k \in 1..(Len(SeBinOpSeq) * NSeR) |-> SeBin(SeBinOpSeq[((se_k - 1) \div NSeR) + 1], SeR[((se_k - 1) % NSeR) + 1], SeVar)]
+        \o [se_k \in 1..(Len(SeBinOpSeq) * NSeR) |-> SeBin(SeBinOpSeq[((se_k - 1) \div NSeR) + 1], SeR[((se_k - 1) % NSeR) + 1], SeR[((se_k - 1) % NSeR) + 1])]
+        \o [se_k \in 1..NSeR |-> [t |-> "cond", c |-> SeR[se_k], x |-> SeVar, y |-> SeLit(SeBSeq[1])]]
+        \o [se_k \in 1..NSeR |-> [t |-> "cond", c |-> SeVar, x |-> SeR[se_k], y |-> SeVar]]
+SeExTargets == IF Quick THEN <<"global", "cell", "dot", "elemvar">> ELSE Targets
+RECURSIVE SeFill(_)
+SeFill(tr) ==
+  CASE tr.t = "lit" -> [t |-> "lit", v |-> AllSeq[tr.gi]]
+    [] tr.t \in {"asg", "cmpd", "un"} -> [tr EXCEPT !.x = SeFill(tr.x)]
+    [] tr.t = "call" -> [tr EXCEPT !.w = SeFill(tr.w), !.x = SeFill(tr.x)]
+    [] tr.t = "bin" -> [tr EXCEPT !.l = SeFill(tr.l), !.r = SeFill(tr.r)]
+    [] tr.t = "cond" -> [tr EXCEPT !.c = SeFill(tr.c), !.x = SeFill(tr.x), !.y = SeFill(tr.y)]
+    [] OTHER -> tr
+\* laws of EvalS: `t op= R` is `t = t op R`; with R = `t = b`: `t op R` is a op b, `R op t` is b op b and b is left in t;
+\* `t op= t++` is a op ToNumber(a); an expression without side effects is EvalTree and leaves t alone
+SeLaws(a) ==
+  /\ \A se_k \in 1..Len(SeCm) :
+        LET tr == SeFill(SeCm[se_k])
+        IN EvalS(tr, a) = EvalS([t |-> "asg", x |-> SeBin(tr.op, SeVar, tr.x)], a)
+  /\ \A oi \in 1..Len(CmpdOpSeq) :
+        LET e == EvalS([t |-> "cmpd", op |-> CmpdOpSeq[oi], x |-> SeUpds[1]], a)
+        IN e.v = BinOp(CmpdOpSeq[oi], a, UnOp("pos", a)) /\ e.t = e.v
+  /\ \A oi \in 1..Len(BinOpSeq) : \A bi \in 1..Len(SeBSeq) :
+        LET op == BinOpSeq[oi]  b == AllSeq[SeBSeq[bi]]
+            wr == [t |-> "asg", x |-> [t |-> "lit", v |-> b]]
+            lr == EvalS(SeBin(op, SeVar, wr), a)
+            rl == EvalS(SeBin(op, wr, SeVar), a)
+            pure == SeBin(op, [t |-> "lit", v |-> a], [t |-> "lit", v |-> b])
+        IN /\ (op \notin LogicOps => lr.v = BinOp(op, a, b) /\ lr.t = b /\ rl.v = BinOp(op, b, b) /\ rl.t = b)
+           /\ (op \in LogicOps => (lr.t = a \/ lr.t = b) /\ rl.t = b)
+           /\ EvalS(pure, a) = [v |-> EvalTree(pure), t |-> a]
+\* an odd integer, said another way: an integer whose remainder modulo 2 has magnitude one
+PowLaws(x, y) ==
+  LET two == DOfSmallInt(2)
+      odd == y.c = "fin" /\ DIsInteger(y) /\ LET rm == DFmod(y, two) IN rm.c = "fin" /\ DMagCmp(rm, DOne) = 0
+      p == DPow(x, y)  q == DPow(DNeg(x), y)
+  IN /\ DIsOddInt(y) = odd
+     /\ (x.c = "zero" /\ y.c \in {"fin", "inf"} /\ y.s = 1 => p = NumV(DInf(IF x.s = 1 /\ odd THEN 1 ELSE 0)))
+     \* (-x) ** y: the sign flips for an odd integer exponent, nothing changes for an even one
+     /\ (y.c = "fin" /\ DIsInteger(y) /\ x.c # "nan" /\ ~IsApprox(p) /\ ~IsApprox(q) =>
+            q = (IF odd THEN NumV(DNeg(DFromW(p.w))) ELSE p))
+     /\ (IsApprox(p) /\ IsApprox(q) /\ y.c = "fin" /\ DIsInteger(y) => (p.s = q.s) = ~odd)
+\* the quick grid has a finite non-zero number of every sign x {odd integer, even integer, non-integer}
+GridLaw ==
+  \A sg \in {0, 1} : \A cl \in {"odd", "even", "frac"} :
+     \E gi \in GridIdx : /\ GridSeq[gi].k = "num"
+                         /\ LET d == DFromW(GridSeq[gi].w)
+                            IN /\ d.c = "fin" /\ d.s = sg
+                               /\ cl = (IF ~DIsInteger(d) THEN "frac" ELSE IF DIsOddInt(d) THEN "odd" ELSE "even")
 \* the sub-grids cover what they are meant to cover (a dropped class fails the specification run, not silently)
 SpaceLaw ==
+  /\ GridLaw
+  /\ \A pc \in PowClasses : \E pi_k \in PowActive : <<PowAll[pi_k].role, PowAll[pi_k].cls>> = pc
+  /\ \A pc \in PowClasses : pc[2] \notin {"nan", "special"} =>
+        \A sg \in {0, 1} : \E pi_k \in PowActive : <<PowAll[pi_k].role, PowAll[pi_k].cls>> = pc /\ WSign(PowAll[pi_k].v.w) = sg
+  /\ SeAIdx \subseteq GridIdx /\ {SeBSeq[se_k] : se_k \in 1..Len(SeBSeq)} \cup {SeRet} \subseteq LitIdx
+  /\ \E gi \in SeAIdx : AllSeq[gi].k = "str"
+  /\ \E gi \in SeAIdx : AllSeq[gi].k = "num"
   /\ \A cl \in UniClasses : \E gi \in UniIdx : UniAll[gi - NGrid].cls = cl
   /\ LitIdx \subseteq GridIdx /\ LitTgtIdx \subseteq LitIdx /\ LitAltPartners \subseteq LitIdx /\ UniPartnerIdx \subseteq GridIdx
   /\ {N("0"), N("-0")} \subseteq {AllSeq[gi] : gi \in LitTgtIdx \cap LitAltPartners}
@@ -130,22 +241,31 @@ SpaceLaw ==
 VARIABLES ph, cur, rec_i          \* rec_i: never a name that library operators bind
 vars == <<ph, cur, rec_i>>
 EnumInit == ph = "start" /\ cur = [a |-> 0, b |-> 0] /\ rec_i = 0
-PairPartners(ia) == IF ia \in UniIdx THEN UniPartnerIdx ELSE GridIdx \cup (IF ia \in UniPartnerIdx THEN UniIdx ELSE {})
+PairPartners(ia) == IF ia \in PowBaseIdx THEN PowExpIdx
+                    ELSE IF ia \in UniIdx THEN UniPartnerIdx ELSE GridIdx \cup (IF ia \in UniPartnerIdx THEN UniIdx ELSE {})
 EnumNext ==
   \/ /\ ph = "start"
-     /\ \E ia \in GridIdx \cup UniIdx : ph' = "row" /\ cur' = [a |-> ia, b |-> 0] /\ UNCHANGED rec_i
+     /\ \E ia \in GridIdx \cup UniIdx \cup PowBaseIdx : ph' = "row" /\ cur' = [a |-> ia, b |-> 0] /\ UNCHANGED rec_i
+  \/ /\ ph = "start"
+     /\ \E ia \in SeAIdx : ph' = "se" /\ cur' = [a |-> ia, b |-> 0] /\ UNCHANGED rec_i
   \/ /\ ph = "row"
      /\ \E ib \in PairPartners(cur.a) : ph' = "pair" /\ cur' = [a |-> cur.a, b |-> ib] /\ UNCHANGED rec_i
 EnumEmit ==
-  CASE ph = "start" -> PrintT(ToJson([kind |-> "grid", vals |-> AllSeq, ngrid |-> NGrid, targets |-> Targets,
+  CASE ph = "start" -> PrintT(ToJson([kind |-> "grid", vals |-> AllSeq, ngrid |-> NGrid, nuni |-> NUni, targets |-> Targets,
                                       lits |-> [gi \in 1..NAll |-> Lits(gi)]]))
     [] ph = "row" -> PrintT(ToJson([kind |-> "single", a |-> cur.a, un |-> UnOpSeq, upd |-> <<"++", "--">>,
                                     targets |-> IF cur.a \in TargetIdx \cup UniIdx THEN Targets ELSE <<"global", "dot">>,
                                     untargets |-> <<"global", "local">>,
                                     cond |-> [a |-> CondA, b |-> CondB],
                                     lit |-> IF cur.a \in LitIdx THEN [li_k \in 1..Len(Lits(cur.a)) |-> li_k] ELSE <<>>]))
-    [] ph = "pair" -> LET uni == cur.a \in UniIdx \/ cur.b \in UniIdx IN
-                      PrintT(ToJson([kind |-> "pair", a |-> cur.a, b |-> cur.b, bin |-> BinOpSeq,
+    [] ph = "se" -> PrintT(ToJson([kind |-> "se", a |-> cur.a, cm |-> SeCm, ex |-> SeEx, cmtargets |-> Targets,
+                                  extargets |-> SeExTargets, lit |-> (cur.a \in LitIdx)]))
+    [] ph = "pair" /\ cur.a \in PowBaseIdx ->
+                      PrintT(ToJson([kind |-> "pair", fam |-> "pow", a |-> cur.a, b |-> cur.b, bin |-> PowOps, cmpd |-> PowOps,
+                                     targets |-> PowTargets,
+                                     lit |-> <<[sa |-> 1, sb |-> 1, bin |-> PowOps, cmpd |-> PowOps]>>]))
+    [] ph = "pair" /\ cur.a \notin PowBaseIdx -> LET uni == cur.a \in UniIdx \/ cur.b \in UniIdx IN
+                      PrintT(ToJson([kind |-> "pair", fam |-> "", a |-> cur.a, b |-> cur.b, bin |-> BinOpSeq,
                                      cmpd |-> IF (cur.a \in TargetIdx /\ cur.b \in TargetIdx) \/ (cur.a \in UniIdx /\ cur.b = UniCmpdPartner)
                                               THEN CmpdOpSeq ELSE <<>>,
                                      targets |-> IF uni THEN UniTargets ELSE Targets,
@@ -234,7 +354,9 @@ LitLaws(a) ==
 LawsHold == CASE ph = "start" -> /\ \A gi \in GridIdx \cup UniIdx : AllSeq[gi].k \in PrimKinds /\ (AllSeq[gi].k = "num" => NumResultOK(AllSeq[gi]))
                                  /\ SpaceLaw
               [] ph = "row" -> SingleLaws(AllSeq[cur.a]) /\ LitLaws(AllSeq[cur.a])
-              [] ph = "pair" -> PairLaws(AllSeq[cur.a], AllSeq[cur.b])
+              [] ph = "pair" -> /\ PairLaws(AllSeq[cur.a], AllSeq[cur.b])
+                                /\ (cur.a \in PowBaseIdx => PowLaws(ToNumberD(AllSeq[cur.a]), ToNumberD(AllSeq[cur.b])))
+              [] ph = "se" -> SeLaws(AllSeq[cur.a])
               [] OTHER -> TRUE
 
 \* ---------------- Judge ------------------------------------------------------------------------
@@ -248,7 +370,14 @@ TreeLitsOK(tr) == CASE tr.t = "lit" -> LitOK(tr.lt, tr.v)
                     [] tr.t = "bin" -> TreeLitsOK(tr.l) /\ TreeLitsOK(tr.r)
                     [] tr.t = "cond" -> TreeLitsOK(tr.c) /\ TreeLitsOK(tr.x) /\ TreeLitsOK(tr.y)
                     [] OTHER -> TRUE
-LitsOK(r) == LitOK(r.la, r.a) /\ LitOK(r.lb, r.b) /\ LitOK(r.lc, r.c) /\ TreeLitsOK(r.tree)
+RECURSIVE SeLitsOK(_)
+SeLitsOK(tr) == CASE tr.t = "lit" -> LitOK(tr.lt, tr.v)
+                  [] tr.t \in {"asg", "cmpd", "un"} -> SeLitsOK(tr.x)
+                  [] tr.t = "call" -> SeLitsOK(tr.w) /\ SeLitsOK(tr.x)
+                  [] tr.t = "bin" -> SeLitsOK(tr.l) /\ SeLitsOK(tr.r)
+                  [] tr.t = "cond" -> SeLitsOK(tr.c) /\ SeLitsOK(tr.x) /\ SeLitsOK(tr.y)
+                  [] OTHER -> TRUE
+LitsOK(r) == LitOK(r.la, r.a) /\ LitOK(r.lb, r.b) /\ LitOK(r.lc, r.c) /\ (IF r.f = "se" THEN SeLitsOK(r.tree) ELSE TreeLitsOK(r.tree))
 NoTarget == Undef
 Expect(r) ==
   CASE r.f = "bin" -> [res |-> BinOp(r.op, r.a, r.b), after |-> NoTarget]
@@ -258,6 +387,7 @@ Expect(r) ==
     [] r.f = "asg" -> [res |-> r.b, after |-> r.b]
     [] r.f = "cond" -> [res |-> CondOp(r.c, r.a, r.b), after |-> NoTarget]
     [] r.f = "tree" -> [res |-> EvalTree(r.tree), after |-> NoTarget]
+    [] r.f = "se" -> LET e == EvalS(r.tree, r.a) IN [res |-> e.v, after |-> e.t]
 \* the relational specification with the engine's own result as the certificate
 RelApplies(r) == r.f = "bin" /\ r.op \in {"+", "-", "*", "/", "%"} /\ ~(r.op = "+" /\ (r.a.k = "str" \/ r.b.k = "str"))
                  /\ r.out.o = "value" /\ r.out.res.k = "num"
@@ -274,7 +404,7 @@ Verdict(r) ==
      ELSE IF fun /\ (~RelApplies(r) \/ RelOK(r)) THEN [v |-> "pass", dev |-> "", exp |-> ShowExp(exp)]
      ELSE IF fun \/ (RelApplies(r) /\ RelOK(r) /\ r.out.after = exp.after)
           THEN [v |-> "spec-inconsistent", dev |-> "", exp |-> ShowExp(exp)]      \* the two formulations disagree: machinery
-     ELSE [v |-> "mismatch", dev |-> Explain(r, exp), exp |-> ShowExp(exp)]
+     ELSE [v |-> "mismatch", dev |-> IF r.f = "se" THEN "" ELSE Explain(r, exp), exp |-> ShowExp(exp)]   \* no as-is model of the side-effect family
 JudgeInit == /\ rec_i \in 1..Len(Recs) /\ ph = "judge" /\ cur = [a |-> 0, b |-> 0]
              /\ LET r == Recs[rec_i]  v == Verdict(r)
                 IN PrintT(ToJson([id |-> r.id, v |-> v.v, dev |-> v.dev, exp |-> v.exp]))
